@@ -21,7 +21,13 @@ var (
 	ErrShape    = errors.New("value does not fit type")
 )
 
-type Codec struct{ Env *gtext.Env }
+type Codec struct {
+	Env *gtext.Env
+	// OmitUnset, when non-nil, is asked for every unset optional field that has a
+	// default whether the reference encoder leaves it out (as an independent
+	// Thrift implementation would) instead of writing the default.
+	OmitUnset func() bool
+}
 
 // ---- serialisation: G → W ----
 
@@ -122,6 +128,9 @@ func (c *Codec) ToWire(t *gtext.T, g *gtext.G) (*wv.V, error) {
 				}
 			case f.Def != nil:
 				if x.IsNil() {
+					if c.OmitUnset != nil && c.OmitUnset() {
+						continue
+					}
 					x = f.Def
 				}
 			default:
